@@ -1349,3 +1349,7 @@ TABLE["C10"] += [
     B("serialize-template-filled-without-its-namespace", {"T10"},
       (MW, "        return WrapperTemplate.collector_function_serialize.format(\n            class_name=class_name, full_name=full_name, namespace=namespace)", "        return WrapperTemplate.collector_function_serialize.format(\n            class_name=class_name, full_name=full_name)")),
 ]
+TABLE["C07"] += [
+    B("typedef-target-matched-by-name-only", {"V8"},
+      (IP + "namespace.py", "            classes_and_funcs = (c for c in namespace.content\n                                 if isinstance(c, (Class, GlobalFunction, ForwardDeclaration)))", "            classes_and_funcs = (c for c in namespace.content\n                                 if hasattr(c, 'name'))")),
+]
